@@ -196,6 +196,18 @@ def generate(tape, tier="quick", force_regime=None):
                 for nme in tails:
                     next(i for i in cc["inputs"] if i["name"] == nme)["initial_pull"] = True
                 cc["init_dep"] = tails
+    if regime == "a2" and not b2:
+        # a ring member learns the metadata of a forcing (tail) input only from its first ring data: the tail source
+        # has its initial data ready and its info pushed, but nobody ever asks for it - the stall must still be seen
+        for r in ring:
+            cc = comps[r]
+            ring_in = [cc["inputs"][l["dst"][1]]["name"] for l in links if l["dst"][0] == r and
+                       (l["src"][0] in ring or comps[l["src"][0]]["kind"] == "pull") and cc["inputs"][l["dst"][1]].get("initial_pull")]
+            for l in links:
+                if l["dst"][0] == r and l["src"][0] not in ring and comps[l["src"][0]]["kind"] == "sim" and ring_in \
+                        and tape.chance(1, 2):
+                    i = cc["inputs"][l["dst"][1]]
+                    i["info_at_init"], i["info_after"] = False, list(ring_in)
     if cyc:
         cyc["link"] = where[cyc["link"]]
     sims = [c for c in comps if c["kind"] == "sim"]
